@@ -155,8 +155,9 @@ def _block(ss: list[dict]) -> list:
     return [_stmt(s) for s in ss]
 
 
-def to_static(p: dict, resolve: Callable[[str], str | None] | None = None, ssbscript: bool = False) -> dict:
-    return {"imports": [(resolve(i) if resolve else None) for i in p.get("imports", [])],
+def to_static(p: dict, spec: Callable[[str], Any] | None = None, ssbscript: bool = False) -> dict:
+    """`spec(import string)` -> import of the static AST ({"direct": key} | {"lookup": [keys]} | "invalid"), see `import_spec`"""
+    return {"imports": [(spec(i) if spec else {"lookup": []}) for i in p.get("imports", [])],
             "macros": [{"name": m["name"], "vars": m["params"], "body": _block(m["body"])} for m in p.get("macros", [])],
             "routines": [{"id": None if r["kind"] == "coro" else r["id"],
                           "fixed": r["kind"] == "for" and r["target"]["k"] == "dec",
@@ -805,23 +806,137 @@ def world_texts(w: dict) -> dict:
     return out
 
 
-def world_static(w: dict) -> dict:
-    names = set(w["files"])
+ROOT = "@ROOT@"          # stands for the directory the world is written to (impl_c10.compile_world substitutes it)
+_VROOT = "/W"
 
-    def resolver(importer: str) -> Callable[[str], str | None]:
-        import posixpath
-        base = posixpath.dirname(importer)
 
-        def res(imp: str) -> str | None:
-            if imp.startswith(".") or imp.startswith("/"):
-                cand = [posixpath.normpath(posixpath.join(base, imp))]
+def import_spec(importer: str, imp: str, lookup: list[str]) -> Any:
+    """the path arithmetic of `_resolve_imported_file` on world keys (posix paths relative to the world's directory; a path
+    outside of it keeps its absolute form and is never a file of the world): which path(s) an import statement names"""
+    import posixpath
+    d = posixpath.join(_VROOT, posixpath.dirname(importer))
+
+    def key(path: str) -> str:
+        n = posixpath.normpath(path)
+        return n[len(_VROOT) + 1:] if n.startswith(_VROOT + "/") else n
+    imp = imp.replace(ROOT, _VROOT)
+    if imp.startswith(".") or imp.startswith("/"):
+        return {"direct": key(posixpath.join(d, imp))}
+    parts = imp.split("/")
+    if "." in parts or ".." in parts:
+        return "invalid"
+    return {"lookup": [key(posixpath.join(d, lp.replace(ROOT, _VROOT), imp)) for lp in lookup]}
+
+
+LOOKUP_CFGS = [[], [], ["libs"], ["libs", "libs2"], [ROOT + "/libs"], ["nodir", "libs"], ["libs2", "libs"], ["libs", ROOT + "/libs2"]]
+FOUND_STYLES = ["rel", "rel_sub", "rel_dotdot", "abs", "lookup", "lookup", "lookup_pkg"]
+MISSING_STYLES = ["rel", "rel_dotdot", "abs", "abs_outside", "lookup", "lookup", "lookup", "lookup_pkg", "lookup_invalid", "directory", "lookup_directory", "empty"]
+
+
+def gen_import_world(r: random.Random) -> dict:
+    """import lists of 1-4 statements in the compiled file and (transitively) in imported files: every statement is found or
+    missing, of every style (./, ../, absolute, lookup path with 0/1/2 lookup paths, relative and absolute lookup paths), a
+    missing statement at every position, after found statements of every style.  Expected: rejected iff some statement of the
+    closure is missing (the generator knows which ones it made missing; the resolver of the static model is not consulted)."""
+    import posixpath
+    lookup = list(r.choice(LOOKUP_CFGS))
+    files: dict[str, Any] = {}
+    info: list[dict] = []
+    any_missing = [False]
+
+    def one_import(importer: str, found: bool, depth: int) -> tuple[str, str | None, str]:
+        """-> (import string, macro of the imported file, style)"""
+        n = fresh("f")
+        if found:
+            style = r.choice(FOUND_STYLES)
+            if style.startswith("lookup") and not lookup:
+                style = r.choice(["rel", "rel_sub", "abs"])
+            if style == "rel":
+                imp = f"./{n}.exps"
+            elif style == "rel_sub":
+                imp = f"./sub{r.randint(0, 2)}/{n}.exps"
+            elif style == "rel_dotdot":
+                imp = f"../{n}.exps" if posixpath.dirname(importer) else f"./d{r.randint(0, 3)}/../{n}.exps"
+            elif style == "abs":
+                imp = f"{ROOT}/" + r.choice(["", "absdir/"]) + f"{n}.exps"
             else:
-                cand = [posixpath.normpath(posixpath.join(base, lp, imp)) for lp in w["lookup"]]
-            for c in cand:
-                if c in names and not (isinstance(w["files"][c], dict) and w["files"][c].get("dir")):
-                    return c
-            return None
-        return res
+                imp = (f"pkg{r.randint(0, 1)}/" if style == "lookup_pkg" else "") + f"{n}.exps"
+            sp = import_spec(importer, imp, lookup)
+            if "direct" in sp:
+                path = sp["direct"]
+            else:
+                j = r.randrange(len(sp["lookup"]))
+                path = sp["lookup"][j]
+                style += f"@{j}of{len(sp['lookup'])}"
+                if j + 1 < len(sp["lookup"]) and r.random() < 0.5:
+                    # the same name further down the lookup list: shadowed, its macro is not available
+                    files[sp["lookup"][j + 1]] = _lib(r, [fresh("shadowed")])
+            macro = fresh("mi")
+            lib = _lib(r, [macro])
+            files[path] = lib
+            if depth < 2 and r.random() < 0.35:
+                fill_imports(path, lib, depth + 1, r.choice([1, 1, 2]), 0.3)
+            return imp, macro, style
+        style = r.choice(MISSING_STYLES)
+        any_missing[0] = True
+        if style == "rel":
+            imp = f"./{n}.exps"
+        elif style == "rel_dotdot":
+            imp = f"../{n}.exps"
+        elif style == "abs":
+            imp = f"{ROOT}/{n}.exps"
+        elif style == "abs_outside":
+            imp = f"/nonexistent_c10/{n}.exps"
+        elif style == "lookup":
+            imp = f"{n}.exps"
+        elif style == "lookup_pkg":
+            imp = f"pkg{r.randint(0, 1)}/{n}.exps"
+        elif style == "lookup_invalid":
+            imp = r.choice([f"libs/../{n}.exps", f"./{n}.exps"[2:] + "/./x", f"a/../{n}.exps"])
+        elif style == "directory":
+            files[import_spec(importer, f"./{n}", lookup)["direct"]] = {"dir": True}
+            imp = f"./{n}"
+        elif style == "lookup_directory":
+            sp = import_spec(importer, n, lookup)
+            for c in sp["lookup"][:1]:
+                files[c] = {"dir": True}
+            imp = n
+        else:
+            imp = ""
+        return imp, None, style
+
+    def fill_imports(importer: str, ast: dict, depth: int, n: int, p_missing: float) -> list[str]:
+        miss_at = r.randrange(n) if r.random() < p_missing else None
+        macros = []
+        prev = None
+        for k in range(n):
+            found = k != miss_at and not (miss_at is not None and r.random() < 0.15)
+            imp, macro, style = one_import(importer, found, depth)
+            ast["imports"].append(imp)
+            if macro:
+                macros.append(macro)
+            else:
+                info.append({"depth": depth, "pos": "only" if n == 1 else "first" if k == 0 else "last" if k == n - 1 else "middle",
+                             "style": style, "after": prev, "lookups": len(lookup)})
+            prev = style if found else "missing"
+        for m in macros:
+            if ast["macros"] and r.random() < 0.5:
+                ast["macros"][0]["body"].append({"t": "macrocall", "name": m, "args": []})
+        return macros
+
+    main = _main(r, [], [])
+    files["main.exps"] = main
+    n = r.choice([1, 2, 2, 3, 3, 4])
+    macros = fill_imports("main.exps", main, 0, n, 0.6)
+    rb = blocks(main, macros=False)
+    for m in macros:
+        _ins(r, r.choice(rb)["ss"], {"t": "macrocall", "name": m, "args": []})
+    # main.exps must stay the first key for readability; directories that collide with files are dropped
+    return {"kind": "import_list", "files": files, "root": "main.exps", "lookup": lookup, "expect_reject": any_missing[0],
+            "modelled": True, "info": info}
+
+
+def world_static(w: dict) -> dict:
     world = []
     for nm, f in w["files"].items():
         if isinstance(f, dict) and f.get("dir"):
@@ -829,5 +944,5 @@ def world_static(w: dict) -> dict:
         if isinstance(f, dict) and "text" in f:
             world.append([nm, {"imports": [], "macros": [], "routines": [{"id": 0, "fixed": False, "body": [["op", False]]}], "ssbscript": bool(f.get("ssbscript"))}])
         else:
-            world.append([nm, to_static(f, resolver(nm))])
+            world.append([nm, to_static(f, (lambda imp, nm=nm: import_spec(nm, imp, w["lookup"])))])
     return {"world": world, "root": w["root"]}
